@@ -221,6 +221,7 @@ def unit_fuzzy(ctx):
     dist = {"fuzzy_on": 0, "accepted": 0, "tuple_cases": 0, "spec_mismatch_tuple": 0}
     nontriv = set()
     bad = 0
+    nspec = 0
     for (sto, des, ff, fo), mo in zip(cases, mout):
         real = impl_matches(sf, sto, des, ff, fo)
         on = bool(ff or fo)
@@ -230,19 +231,21 @@ def unit_fuzzy(ctx):
             nontriv.add(lib.canon([sto, des, ff, fo]))
         if (mo == "1") != real:
             bad += 1
-            ctx.violation("fuzzy_matches", "_matches: impl %s, model %s" % (real, mo),
-                          {"input": "corr:C02/fuzzy_matches", "case": {"stored": sto, "desired": des, "ff": ff, "fo": fo}},
-                          no_failing_input=True)
-            if bad > 3:
-                break
+            if bad <= 2:
+                ctx.violation("fuzzy_matches", "_matches: impl %s, model %s" % (real, mo),
+                              {"input": "corr:C02/fuzzy_matches", "case": {"stored": sto, "desired": des, "ff": ff, "fo": fo}},
+                              no_failing_input=True)
         if on:
             spec = fuzzy_spec(sto, des, ff, fo)
             if spec != real:
-                tup = has_tuple([e for e in des if e[0] not in ff]) or has_tuple([e for e in sto if e[0] not in ff])
+                # finding F2 explains only: rejected although agreeing, and a tuple value survives the filtering
+                kept = [[d, a, b, [[k, x] for k, x in cfg if k not in fo]] for d, a, b, cfg in des if d not in ff]
+                tup = has_tuple(kept)
                 dist["tuple_cases"] += tup
                 if tup and spec and not real and ctx.fuzzy_tuple_known:
-                    dist["spec_mismatch_tuple"] += 1     # explained by finding F2 (reported once, below)
-                else:
+                    dist["spec_mismatch_tuple"] += 1     # explained by finding F2 (reported once, by unit_fuzzy_witness)
+                elif nspec < 3:
+                    nspec += 1
                     ctx.violation("fuzzy_match_iff", "_matches accepts=%s, but the lineages %s outside the fuzzy parts"
                                   % (real, "agree" if spec else "differ"),
                                   {"input": {"stored": sto, "desired": des, "ff": ff, "fo": fo}})
@@ -339,13 +342,16 @@ def unit_determinism(ctx):
               [["key_for", 0, 0, dt] for dt in j["dts"]]
         lines.append(L.enc_hist(0, ops))
     mout = lib.run_model_parallel("C02", lines)
+    n_dis = 0
     for j, b, mo in zip(jobs, base, mout):
         obs = L.parse_model_line(mo)[-len(j["dts"]):]
         for dt, m in zip(j["dts"], obs):
             mk = L.b32hash(L.render(m["toks"])) if m["k"] == "K" else "err"
             if not (b[str(dt)] == mk or (mk == "err" and b[str(dt)].startswith("err"))):
-                ctx.violation("determinism", "key of a fresh context: impl %s, model %s" % (b[str(dt)], mk),
-                              {"input": "corr:C02/determinism", "case": j, "dt": dt}, no_failing_input=True)
+                n_dis += 1
+                if n_dis == 1:
+                    ctx.violation("determinism", "key of a fresh context: impl %s, model %s" % (b[str(dt)], mk),
+                                  {"input": "corr:C02/determinism", "case": j, "dt": dt}, no_failing_input=True)
                 break
     seeds = ["1", "77", "4242"]
     payload = json.dumps(jobs)
